@@ -32,13 +32,31 @@ PRELUDE = r'''
 # a write of this size to a peer that never reads cannot complete: the writer stays parked
 (var big-payload-cache nil)
 (defn big-payload [] (or big-payload-cache (set big-payload-cache (buffer/new-filled (* 32 1024 1024) (chr "x")))))
+(var pair-counter 0)
 (defn connected-pair []
-  # [client-side stream, server-side stream, listener]; the server side never reads or writes on its own
+  # [client-side stream, server-side stream, listener] over a unix socket private to this process: nobody else can connect.
+  # The server side never reads or writes on its own.
+  (def path (string "/tmp/c20-pair-" (os/getpid) "-" (++ pair-counter)))
+  (try (os/rm path) ([e] nil))
+  (def l (net/listen :unix path))
+  (def c (net/connect :unix path))
+  (def a (net/accept l))
+  (os/rm path)
+  [c a l])
+# the TCP variant shakes hands: an ephemeral loopback port may have belonged to another process a moment ago, and a stranger's
+# connection (or probe) may arrive on it
+(defn accept-ours [l]
+  (var a nil)
+  (while (nil? a)
+    (def x (net/accept l))
+    (if (= "c20!" (string (or (try (ev/read x 4) ([e] nil)) ""))) (set a x) (ev/close x)))
+  a)
+(defn tcp-pair []
   (def l (net/listen "127.0.0.1" "0"))
   (def [_ port] (net/localname l))
   (def c (net/connect "127.0.0.1" (string port)))
-  (def a (net/accept l))
-  [c a l])
+  (ev/write c "c20!")
+  [c (accept-ours l) l])
 # reader and writer parked on the same duplex stream at once, then `how` happens; both must be released
 (defn duplex-both [how]
   (def [c a l] (connected-pair))
@@ -53,6 +71,42 @@ PRELUDE = r'''
     :close-then-cancel (do (ev/close c) (ev/cancel fw :x) (ev/cancel fr :x)))
   (ev/take dn) (ev/take dn)
   (ev/close c) (ev/close a) (ev/close l))
+# handles kept referenced on purpose (so that only explicit closes, not finalisers, can release their descriptors)
+(def keep @[])
+(defn thread-drain [c back n] (ev/thread (fn [] (for k 0 n (ev/give back (ev/take c)))) nil :n))
+# several givers parked on a full thread channel; the earlier ones abandon their wait (`how`), the last one must still be
+# resumed by the takes that follow.  The givers yield a different number of times first so that their sched ids differ.
+(defn tchan-givers [how nabandon taker]
+  (def tc (ev/thread-chan 1))
+  (ev/give tc :fill)
+  (def dn (ev/chan 8))
+  (def quitters @[])
+  (for k 0 nabandon
+    (array/push quitters
+      (ev/spawn (for j 0 (+ 1 k) (ev/sleep 0))
+                (try (case how
+                       :deadline (ev/with-deadline 0.002 (ev/give tc [:quitter k]))
+                       :select (ev/select [tc [:quitter k]] dn)
+                       (ev/give tc [:quitter k]))
+                     ([e] nil))
+                (ev/give dn [:quitter k]))))
+  (def stayer (ev/spawn (for j 0 (+ 3 nabandon) (ev/sleep 0)) (ev/give tc :stayer) (ev/give dn :stayer)))
+  # all parked: a blocking give has already queued its item
+  (while (< (ev/count tc) (+ 2 nabandon)) (ev/sleep 0.001))
+  (case how
+    :cancel (each q quitters (ev/cancel q :abandon))
+    :select (for k 0 nabandon (ev/give dn :other-clause))
+    nil)
+  # the quitters are gone (their completion messages arrive), the stayer is still parked
+  (var gone 0)
+  (while (< gone nabandon)
+    (def m (ev/take dn))
+    (when (and (tuple? m) (= :quitter (m 0))) (++ gone)))
+  # now drain the channel: the wake-up must be forwarded past the abandoned entries to the stayer
+  (if (= taker :thread)
+    (do (def back (ev/thread-chan 8)) (thread-drain tc back (+ 2 nabandon)) (for k 0 (+ 2 nabandon) (ev/take back)))
+    (for k 0 (+ 2 nabandon) (ev/take tc)))
+  (while (not= :stayer (ev/take dn)) nil))
 (defn free-port-listener []
   # listen on an ephemeral loopback port; returns [server port]
   (def s (net/listen "127.0.0.1" "0"))
@@ -134,18 +188,15 @@ CYCLES = {
   (quiesce)'''),
     # ---- network
     "tcp-connect-accept": ("net", r'''
-  (def [s port] (free-port-listener))
-  (def c (net/connect "127.0.0.1" (string port)))
-  (def a (net/accept s))
+  (def [c a s] (tcp-pair))
   (ev/write c "ping")
   (ev/read a 4)
   (ev/write a "pong")
   (ev/read c 4)
   (ev/close c) (ev/close a) (ev/close s)'''),
     "tcp-connect-refused": ("net", r'''
-  (def [s port] (free-port-listener))
-  (ev/close s)
-  (try (do (def c (net/connect "127.0.0.1" (string port))) (ev/close c)) ([e] nil))'''),
+  # nothing listens on the privileged port 1 (never handed out as an ephemeral port, so no other process is disturbed)
+  (assert (= :refused (try (do (def c (net/connect "127.0.0.1" "1")) (ev/close c) :connected) ([e] :refused))))'''),
     "connect-fail-then-reuse-fd": ("cheap", r'''
   (try (net/connect :unix "/tmp/c20-no-such-socket") ([e] nil))
   (def [r w] (os/pipe))      # usually gets the descriptor number the failed connection had
@@ -171,8 +222,9 @@ CYCLES = {
   (ev/close s)'''),
     "tcp-server-handler": ("net", r'''
   (def [s port] (free-port-listener))
-  (def srv (ev/spawn (with [conn (net/accept s)] (ev/write conn (ev/read conn 3)))))
+  (def srv (ev/spawn (with [conn (accept-ours s)] (ev/write conn (ev/read conn 3)))))
   (with [c (net/connect "127.0.0.1" (string port))]
+    (ev/write c "c20!")
     (ev/write c "abc")
     (ev/read c 3))
   (ev/sleep 0)
@@ -208,7 +260,8 @@ CYCLES = {
   (when (= 0 (% i 4)) (gccollect))'''),
     "gc-only-sockets": ("net", r'''
   (def [c a l] (connected-pair))         # client, server side and listener all dropped unclosed
-  (ev/write c "x")
+  (def [c2 a2 l2] (tcp-pair))
+  (ev/write c "x") (ev/write c2 "x")
   (when (= 0 (% i 8)) (gccollect))'''),
     "gc-only-unix-listener": ("net", r'''
   (def path (string "/tmp/c20-gconly-" (os/getpid)))
@@ -380,16 +433,57 @@ CYCLES = {
   (ev/close r) (ev/close w)'''),
 }
 
+for _how in ("cancel", "deadline", "select"):
+    for _taker in ("local", "thread"):
+        CYCLES["tchan-givers-abandon-%s-%s" % (_how, _taker)] = (
+            "thread" if _taker == "thread" else "cheap",
+            "\n  (tchan-givers :%s (+ 1 (%% i 3)) :%s)" % (_how, _taker))
+
+# ---- subprocess API matrix: {0..3 :pipe redirections} x {order of wait / close / kill / abandon / drop} x {handle kept or dropped}
+RESOURCE_METRICS = ["fds", "children", "zombies", "lc", "tq", "rq", "shared"]   # what is judged when handles are kept on purpose
+PIPESETS = {0: "", 1: " {:out :pipe}", 2: " {:in :pipe :out :pipe}", 3: " {:in :pipe :out :pipe :err :pipe}"}
+#   order -> (child, janet code using p)
+PROC_ORDERS = {
+    "wait": ("true", "(os/proc-wait p)"),
+    "close": ("true", "(os/proc-close p)"),
+    "wait-close": ("true", "(os/proc-wait p) (assert (nil? (os/proc-close p)))"),
+    "close-wait-error": ("true", "(os/proc-close p) (assert (= :err (try (do (os/proc-wait p) :ok) ([e] :err))))"),
+    "kill-close": ("sleep", "(os/proc-kill p) (os/proc-close p)"),
+    "killwait-close": ("sleep", "(os/proc-kill p true) (os/proc-close p)"),
+    "kill-wait-close": ("sleep", "(os/proc-kill p) (assert (= 137 (os/proc-wait p))) (os/proc-close p) (assert (= 137 (p :return-code)))"),
+    "drop-gc": ("true", "(when (= 0 (% i 8)) (gccollect))"),
+    "running-drop-gc": ("sleep", "(when (= 0 (% i 8)) (gccollect))"),
+    # the waiter abandons its wait (cancel), only then the child exits; afterwards the handle must say so
+    "abandon-exit-close": ("sleep", "(def t (ev/spawn (try (os/proc-wait p) ([e] nil)))) (ev/sleep 0) (ev/cancel t :x) (ev/sleep 0) "
+                                    "(os/proc-kill p) (quiesce) (assert (= 137 (p :return-code)) \"exit status recorded\") (os/proc-close p)"),
+    "abandon-exit-wait-error": ("sleep", "(def t (ev/spawn (try (os/proc-wait p) ([e] nil)))) (ev/sleep 0) (ev/cancel t :x) (ev/sleep 0) "
+                                         "(os/proc-kill p) (quiesce) (assert (= :err (try (do (os/proc-wait p) :ok) ([e] :err)))) "
+                                         "(assert (= 137 (p :return-code))) (os/proc-close p)"),
+    "deadline-exit-close": ("sleep", "(try (ev/with-deadline 0.002 (os/proc-wait p)) ([e] nil)) (os/proc-kill p) (quiesce) "
+                                     "(assert (= 137 (p :return-code))) (os/proc-close p)"),
+}
+CLOSING_ORDERS = [o for o, (c, code) in PROC_ORDERS.items() if "proc-close" in code]
+for _np, _env in PIPESETS.items():
+    for _order, (_child, _code) in PROC_ORDERS.items():
+        for _kept in ((True, False) if _order in CLOSING_ORDERS else (False,)):
+            _cmd = '["true"]' if _child == "true" else '["sleep" "100000"]'
+            _body = "\n  (def p (os/spawn %s :p%s))\n  %s" % (_cmd, _env, _code)
+            if _kept:
+                _body += "\n  (array/push keep p)"
+            CYCLES["proc:%dpipes:%s:%s" % (_np, _order, "kept" if _kept else "dropped")] = (
+                "matrix", _body) + ((RESOURCE_METRICS,) if _kept else ())
+
 COST_N = {  # (quick N, thorough N)
     "cheap": (500, 5000),
     "net": (300, 2500),
     "proc": (100, 800),
     "thread": (80, 600),
+    "matrix": (60, 400),
 }
 
 
 def cycle_script(name, rng, n, warm=10):
-    cost, body = CYCLES[name]
+    cost, body = CYCLES[name][:2]
     a = rng.range(1, 40)
     b = rng.range(0, 4)
     c = rng.range(1, 6)
@@ -435,8 +529,8 @@ def _task(kind, k, rng):
                     "(assert (deep= @\"hi\\n\" (ev/read (p :out) 10))) (os/proc-wait p) (os/proc-close p)" % d), "done", ""
     if kind == "tcp":
         return ("(def [s%d port%d] (free-port-listener))" % (k, k),
-                "(ev/spawn (with [conn (net/accept s%d)] (ev/sleep %g) (ev/write conn \"pong\"))) "
-                "(with [c (net/connect \"127.0.0.1\" (string port%d))] (assert (deep= @\"pong\" (ev/read c 4)))) (ev/close s%d)" % (k, d, k, k),
+                "(ev/spawn (with [conn (accept-ours s%d)] (ev/sleep %g) (ev/write conn \"pong\"))) "
+                "(with [c (net/connect \"127.0.0.1\" (string port%d))] (ev/write c \"c20!\") (assert (deep= @\"pong\" (ev/read c 4)))) (ev/close s%d)" % (k, d, k, k),
                 "done", "")
     if kind == "chan":
         return ("(def ch%d (ev/chan %d))" % (k, rng.range(0, 2)),
@@ -473,6 +567,8 @@ def _task(kind, k, rng):
         return ("(def [r%d w%d] (os/pipe))" % (k, k),
                 "(def dn (ev/chan 1)) (ev/spawn (try (ev/with-deadline 1000000 (ev/read r%d 10)) ([e] nil)) (ev/give dn 1)) (wait-parked r%d 1) "
                 "(ev/close r%d) (ev/close w%d) (ev/take dn)" % (k, k, k, k), "done", "")
+    if kind == "tchan-givers-abandon":
+        return "", "(tchan-givers %s %d %s)" % (rng.choice([":cancel", ":deadline", ":select"]), rng.range(1, 3), rng.choice([":local", ":thread"])), "done", ""
     if kind == "thread-nowait":
         # fire and forget: only the event loop's own count keeps the program alive until the thread has finished
         return "", "(thread-nowait-log %g %d)" % (d * 2, 1000 + k), "done", "", {1000 + k: "done"}
@@ -513,7 +609,7 @@ MIX_KINDS = ["sleep", "sleep-chain", "thread", "do-thread", "proc", "execute", "
              "read-timeout", "deadline", "stale-deadline", "stale-timeout", "cancel-sleep", "cancel-take", "cancel-tchan-take",
              "cancel-read", "cancel-proc-wait", "close-under-read", "chan-close-under-take", "loop1-interrupt", "thread-nowait", "proc-wait-abandoned", "cancel-thread-await",
              "duplex-close-both", "duplex-peer-close-both", "duplex-cancel-both", "accept-then-close", "proc-wait-kill-close-pipes",
-             "deadline-then-close"]
+             "deadline-then-close", "tchan-givers-abandon"]
 
 
 def mix_script(rng, ntasks, kinds=None):
